@@ -604,6 +604,8 @@ class TrioWorld(WorldBase):
             nonspin = [t for t in runner.runq if t is not self.spin_task]
             due = runner.deadlines.next_deadline() <= self.clock._virtual_base
             quiescent = not nonspin and not due
+            if quiescent and self.scenario.get("monitor") is not None:
+                self.scenario["monitor"](self)
             ev = self.driver.at_boundary(self, quiescent)
             if ev is STOP:
                 self.stopped = True
